@@ -12,7 +12,9 @@ def run(rep, kf, tier, seed):
     import contracts.registration as creg
     import contracts.fixpoints as cfp
     import contracts.add_parameters as cap
-    engine_b.discharge(rep, kf, creg.all_contracts() + cfp.all_contracts() + [cap.add_parameters_contract()], "C07", tier, seed)
+    import contracts.responses_c as crc
+    engine_b.discharge(rep, kf, creg.all_contracts() + cfp.all_contracts() + [cap.add_parameters_contract(), crc.response_contract()],
+                       "C07", tier, seed)
     run_bounded(rep, kf, "C07", ["body_media", "enum_values", "model_properties", "param_conflicts", "name_collision", "body_refs", "schema_accounting"], tier)
     rep.trusted.append("pyvc Engine B")
     rep.assumptions.extend([
